@@ -2,7 +2,7 @@ import UberjobModel.Model.Json
 import UberjobModel.Model.TextCodecDrv
 /-!
   Driver commands of the JSON model (T2 of C12; stateless).  Values travel as prefix terms, tokens separated by blanks:
-  `n` (None)  `t` `f`  `i<int>`  `S k cp…cp`  `A k v…v`  `O k (S… v)…`
+  `n` (None)  `t` `f`  `i<int>`  `F<float text>`  `S k cp…cp`  `A k v…v`  `O k (S… v)…`
 
   `json enc <layout> <ascii> | term`   `<layout>` = `gen` (what JsonFileStore passes to json.dump in the current source),
       `indent:<n>` or `compact`; `<ascii>` = `gen` | `1` | `0`.  Reply `ok <code points of json.dumps(value, …)>`
@@ -25,6 +25,12 @@ def readV : Nat → List String → Option (JV × List String)
   | f + 1, t :: ts =>
     if t == "n" then some (.null, ts) else if t == "t" then some (.bool true, ts) else if t == "f" then some (.bool false, ts)
     else if t.startsWith "i" then (t.drop 1).toString.toInt?.map (fun n => (.int n, ts))
+    else if t.startsWith "F" then
+      -- a float, as its text: scanned by the model's own number scanner, which must take all of it as a float
+      let cps := ((t.drop 1).toString.toList.map Char.toNat)
+      match (match cps with | 45 :: r => parseNumber true r | r => parseNumber false r) with
+      | .ok (.float f, []) => some (.float f, ts)
+      | _ => none
     else if t == "S" then
       match ts with
       | k :: ts => (k.toNat?.bind (fun k => readStr k ts)).map (fun (s, r) => (.str s, r))
@@ -68,6 +74,7 @@ def showV : JV → List String
   | .bool true => ["t"]
   | .bool false => ["f"]
   | .int n => ["i" ++ toString n]
+  | .float f => ["F" ++ String.ofList (f.text.map Char.ofNat)]
   | .str s => [showS s]
   | .arr xs => "A" :: toString (lenVs xs) :: showVs xs
   | .obj ms => "O" :: toString (lenMs ms) :: showMs ms
